@@ -327,6 +327,15 @@ pub fn enrich(rng: &mut Rng, m: &mut SchemaModel, features: &mut BTreeSet<String
                 }
             }
         }
+        // the types that directive arguments refer to (and their members) only get the argument-less @flag:
+        // anything else could close a cycle through a directive definition
+        let owner = match &site {
+            Site::Type(k) | Site::Field(k, _) | Site::FieldArg(k, _, _) | Site::EnumValue(k, _) | Site::InputField(k, _) => items[*k].name().unwrap_or("").to_string(),
+            _ => String::new(),
+        };
+        if owner == "Color" || owner == "MetaInfo" {
+            new = vec![Dir::new("flag", vec![])];
+        }
         let ds = dirs_at(items, &site);
         // keep non-repeatable directives unique per site
         for d in new {
